@@ -86,7 +86,11 @@ impl<O: DataOrder> LoadStore<O> for RawU16 {
     }
 
     fn store(self, buffer: &mut [u8], index: usize) -> Result<(), OutOfBoundsError> {
-        let bytes = self.into_inner().to_le_bytes();
+        let bytes = if O::IS_ALTERNATE_ORDER {
+            self.into_inner().to_be_bytes()
+        } else {
+            self.into_inner().to_le_bytes()
+        };
 
         buffer
             .get_mut(index * 2..)
@@ -119,13 +123,19 @@ impl<O: DataOrder> LoadStore<O> for RawU24 {
     }
 
     fn store(self, buffer: &mut [u8], index: usize) -> Result<(), OutOfBoundsError> {
-        let bytes = self.into_inner().to_le_bytes();
+        let bytes = if O::IS_ALTERNATE_ORDER {
+            let bytes = self.into_inner().to_be_bytes();
+            [bytes[1], bytes[2], bytes[3]]
+        } else {
+            let bytes = self.into_inner().to_le_bytes();
+            [bytes[0], bytes[1], bytes[2]]
+        };
 
         buffer
             .get_mut(index * 3..)
             .and_then(|buffer| buffer.get_mut(0..3))
             .ok_or(OutOfBoundsError)
-            .map(|buffer| buffer.copy_from_slice(&bytes[0..3]))
+            .map(|buffer| buffer.copy_from_slice(&bytes))
     }
 }
 
@@ -148,7 +158,11 @@ impl<O: DataOrder> LoadStore<O> for RawU32 {
     }
 
     fn store(self, buffer: &mut [u8], index: usize) -> Result<(), OutOfBoundsError> {
-        let bytes = self.into_inner().to_le_bytes();
+        let bytes = if O::IS_ALTERNATE_ORDER {
+            self.into_inner().to_be_bytes()
+        } else {
+            self.into_inner().to_le_bytes()
+        };
 
         buffer
             .get_mut(index * 4..)
